@@ -9,6 +9,11 @@ import (
 	"strings"
 )
 
+const (
+	timedMinPullMs   = 10
+	pollGapIntervals = 6
+)
+
 const settleN = 5 // consecutive unsuccessful polls tolerated inside one alive+reachable epoch before "does not settle"
 
 type Viol struct {
@@ -19,29 +24,36 @@ type Viol struct {
 }
 
 type Stats struct {
-	Polls            int            `json:"polls"`
-	PollsByOutcome   map[string]int `json:"polls_by_outcome"`
-	DeadPolls        map[string]int `json:"completeness_polls_by_cause"`
-	AlivePolls       int            `json:"accuracy_polls"`
-	PreSuccessFails  int            `json:"unsuccessful_polls_before_first_success_in_epoch"`
-	MaxPreSuccess    int            `json:"max_unsuccessful_polls_before_first_success"`
-	Reads            int            `json:"reads"`
-	ReadsByResult    map[string]int `json:"reads_by_result"`
-	ReadsDead        int            `json:"completeness_reads"`
-	ReadsAlive       int            `json:"accuracy_reads"`
-	ReadsNoVerdict   int            `json:"reads_without_verdict"`
-	QuiescentGroups  int            `json:"quiescent_read_groups_with_2plus_reads"`
-	BlockEvaluated   int            `json:"blocking_reads_evaluated"`
-	MaxQ             int            `json:"max_quarter_ticks_inside_a_read"`
-	MaxSentinelQ     int            `json:"max_quarter_ticks_inside_a_sentinel_sleep"`
-	UninitReads      int            `json:"reads_in_uninitialised_state"`
-	MonStates        map[string]int `json:"monitor_state_changes"`
-	GenerousTimeouts int            `json:"timeouts_in_generous_regime"`
-	RunReturns       int            `json:"run_archetype_returns_checked"`
+	Polls             int            `json:"polls"`
+	PollsByOutcome    map[string]int `json:"polls_by_outcome"`
+	DeadPolls         map[string]int `json:"completeness_polls_by_cause"`
+	AlivePolls        int            `json:"accuracy_polls"`
+	PreSuccessFails   int            `json:"unsuccessful_polls_before_first_success_in_epoch"`
+	MaxPreSuccess     int            `json:"max_unsuccessful_polls_before_first_success"`
+	Reads             int            `json:"reads"`
+	ReadsByResult     map[string]int `json:"reads_by_result"`
+	ReadsDead         int            `json:"completeness_reads"`
+	ReadsAlive        int            `json:"accuracy_reads"`
+	ReadsNoVerdict    int            `json:"reads_without_verdict"`
+	QuiescentGroups   int            `json:"quiescent_read_groups_with_2plus_reads"`
+	BlockEvaluated    int            `json:"blocking_reads_evaluated"`
+	MaxQ              int            `json:"max_quarter_ticks_inside_a_read"`
+	MaxSentinelQ      int            `json:"max_quarter_ticks_inside_a_sentinel_sleep"`
+	UninitReads       int            `json:"reads_in_uninitialised_state"`
+	MonStates         map[string]int `json:"monitor_state_changes"`
+	GenerousTimeouts  int            `json:"timeouts_in_generous_regime"`
+	RunReturns        int            `json:"run_archetype_returns_checked"`
+	RepliesAfterClose int            `json:"polls_answered_by_a_monitor_after_its_Close_returned"`
+	TimedCandidates   int            `json:"scenarios_with_pull_interval_for_counted_time_verdicts"`
+	GuardFail         map[string]int `json:"load_guard_failures"`
+	TimedEvaluated    int            `json:"scenarios_whose_clocks_passed_the_load_guard"`
+	GapsEvaluated     int            `json:"poll_gaps_evaluated"`
+	MaxGapQ           int            `json:"max_quarter_ticks_in_a_poll_gap"`
+	ServePanics       int            `json:"monitor_listenandserve_panics_on_close"`
 }
 
 func newStats() Stats {
-	return Stats{PollsByOutcome: map[string]int{}, DeadPolls: map[string]int{}, ReadsByResult: map[string]int{}, MonStates: map[string]int{}}
+	return Stats{PollsByOutcome: map[string]int{}, DeadPolls: map[string]int{}, ReadsByResult: map[string]int{}, MonStates: map[string]int{}, GuardFail: map[string]int{}}
 }
 
 func (s *Stats) add(o Stats) {
@@ -57,6 +69,9 @@ func (s *Stats) add(o Stats) {
 	}
 	for k, v := range o.MonStates {
 		s.MonStates[k] += v
+	}
+	for k, v := range o.GuardFail {
+		s.GuardFail[k] += v
 	}
 	s.AlivePolls += o.AlivePolls
 	s.PreSuccessFails += o.PreSuccessFails
@@ -78,12 +93,21 @@ func (s *Stats) add(o Stats) {
 	s.UninitReads += o.UninitReads
 	s.GenerousTimeouts += o.GenerousTimeouts
 	s.RunReturns += o.RunReturns
+	s.RepliesAfterClose += o.RepliesAfterClose
+	s.TimedCandidates += o.TimedCandidates
+	s.TimedEvaluated += o.TimedEvaluated
+	s.GapsEvaluated += o.GapsEvaluated
+	if o.MaxGapQ > s.MaxGapQ {
+		s.MaxGapQ = o.MaxGapQ
+	}
+	s.ServePanics += o.ServePanics
 }
 
 type OracleOut struct {
-	Viols        []Viol
-	Inconclusive []string
-	Stats        Stats
+	TimedUndecided []string // keys of counted-time statements whose raw tick count met the bound but whose regular-tick run did not
+	Viols          []Viol
+	Inconclusive   []string
+	Stats          Stats
 }
 
 type poll struct {
@@ -127,10 +151,12 @@ func evalScenario(sc Scenario, evs []Ev) OracleOut {
 	st := &out.Stats
 	const inf = int64(1) << 62
 
-	var monListenCall, monUp, monCloseCall, monDown int64
+	var monListenCall, monUp, monCloseCall, monCloseRet, monDown int64
 	archTL := map[int][]stateEv{}
 	created := map[string]int64{}
 	newCall := map[int]int64{}
+	listenFailed := ""
+	finalClose := false
 	signalled := map[int]string{}
 	polls := map[string][]*poll{}
 	reads := map[string][]*read{}
@@ -143,6 +169,16 @@ func evalScenario(sc Scenario, evs []Ev) OracleOut {
 
 	for _, e := range evs {
 		switch e.K {
+		case "mon-serve-ret":
+			// ListenAndServe returned an error before the harness closed the monitor: the reserved port was taken
+			// by somebody else (or Accept failed) — what the detectors talked to is not our monitor
+			if e.Err != "" && !finalClose && monCloseCall == 0 {
+				listenFailed = e.Err
+			}
+		case "mon-final-close-call":
+			finalClose = true
+		case "px-restore-failed":
+			listenFailed = "proxy could not re-listen: " + e.Err
 		case "mon-listen-call":
 			if monListenCall == 0 {
 				monListenCall = e.Seq
@@ -154,6 +190,12 @@ func evalScenario(sc Scenario, evs []Ev) OracleOut {
 		case "mon-close-call":
 			if monCloseCall == 0 {
 				monCloseCall = e.Seq
+			}
+		case "mon-serve-panic":
+			st.ServePanics++
+		case "mon-close-ret":
+			if monCloseRet == 0 {
+				monCloseRet = e.Seq
 			}
 		case "mon-down":
 			if monDown == 0 {
@@ -174,8 +216,8 @@ func evalScenario(sc Scenario, evs []Ev) OracleOut {
 			st.RunReturns++
 			if last != "failed" && last != "finished" {
 				out.Viols = append(out.Viols, Viol{Kind: "completeness",
-					Key:  fmt.Sprintf("C19:completeness:monitor-records-%s-after-RunArchetype-returned:ending-%s", last, signalled[e.A]),
-					Desc: fmt.Sprintf("Monitor.RunArchetype returned (archetype ended by %s, error %q) but the monitor's last recorded state for it is %s", signalled[e.A], e.Err, last),
+					Key:    fmt.Sprintf("C19:completeness:monitor-records-%s-after-RunArchetype-returned:ending-%s", last, signalled[e.A]),
+					Desc:   fmt.Sprintf("Monitor.RunArchetype returned (archetype ended by %s, error %q) but the monitor's last recorded state for it is %s", signalled[e.A], e.Err, last),
 					Detail: map[string]any{"archetype": e.A, "run_ret": e.Seq, "ending": signalled[e.A], "monitor_timeline": fmt.Sprint(tl)}})
 			}
 		case "det-new-call":
@@ -246,7 +288,9 @@ func evalScenario(sc Scenario, evs []Ev) OracleOut {
 		monUnreach := ""
 		if monListenCall == 0 || e < monListenCall {
 			monUnreach = "monitor-not-listening-yet"
-		} else if monDown > 0 {
+		} else if monDown > 0 && monUp > 0 && monUp < monCloseCall {
+			// the listener was confirmed up before Close was called and confirmed refusing afterwards.
+			// (Close before ListenAndServe reached net.Listen leaves the monitor listening: that one is reachable.)
 			if c, ok := created[d]; ok && c > monDown {
 				monUnreach = "monitor-closed-before-detector-start"
 			}
@@ -331,6 +375,9 @@ func evalScenario(sc Scenario, evs []Ev) OracleOut {
 				continue
 			}
 			st.Polls++
+			if monCloseRet > 0 && p.start > monCloseRet && p.outcome == "reply" {
+				st.RepliesAfterClose++ // Monitor.Close leaves established connections served: by the restatement still "reachable"
+			}
 			oc := p.outcome
 			if oc == "reply" {
 				oc = "reply-" + p.reply
@@ -501,9 +548,62 @@ func evalScenario(sc Scenario, evs []Ev) OracleOut {
 		}
 	}
 
-	// ---- blocking bound, counted in quarter-interval ticks of the harness metronome
-	if sc.PullMs >= 8 {
+	// ---- counted-time statements, in quarter-interval ticks of the harness metronome. Only for pull intervals
+	// >= 10 ms. A span is measured as the longest run of consecutive REGULAR ticks inside it: two ticks are
+	// consecutive-regular when the recorder's timestamps put them at most 2.5 quarters apart. The timestamps are
+	// only used to discard ticks (a process-wide stall or a dropped tick breaks the run and can only make a span
+	// look shorter), never to measure the span itself.
+	guardOK := false
+	var tickT []int64
+	var breakAfter []int // prefix count of irregular gaps: breakAfter[i] = #irregular gaps among ticks[0..i]
+	if sc.PullMs >= timedMinPullMs {
+		st.TimedCandidates++
+		quarterUs := int64(sc.PullMs) * 1000 / 4
+		for _, e := range evs {
+			if e.K == "qtick" {
+				tickT = append(tickT, e.T)
+			}
+		}
+		breakAfter = make([]int, len(tickT))
+		regular := 0
+		for i := 1; i < len(tickT); i++ {
+			breakAfter[i] = breakAfter[i-1]
+			if (tickT[i]-tickT[i-1])*2 > 5*quarterUs {
+				breakAfter[i]++
+			} else {
+				regular++
+			}
+		}
+		switch {
+		case len(tickT) < 20:
+			st.GuardFail["too-few-ticks"]++
+		case regular*2 < len(tickT):
+			st.GuardFail["under-half-of-the-ticks-regular"]++
+		default:
+			guardOK = true
+		}
+	}
+	if guardOK {
+		st.TimedEvaluated++
+		// count = length of the longest run of regular ticks strictly inside (a, b)
 		count := func(a, b int64) int {
+			lo := sort.Search(len(qticks), func(i int) bool { return qticks[i] > a })
+			hi := sort.Search(len(qticks), func(i int) bool { return qticks[i] >= b })
+			best, run := 0, 0
+			for i := lo; i < hi; i++ {
+				if i > lo && breakAfter[i] != breakAfter[i-1] {
+					run = 0
+				}
+				run++
+				if run > best {
+					best = run
+				}
+			}
+			return best
+		}
+		// raw = every tick inside (a, b), regular or not: used only to tell "the re-run could not have shown it"
+		// (raw criterion met, regular-run criterion not) from "the re-run shows it does not happen"
+		raw := func(a, b int64) int {
 			lo := sort.Search(len(qticks), func(i int) bool { return qticks[i] > a })
 			hi := sort.Search(len(qticks), func(i int) bool { return qticks[i] >= b })
 			return hi - lo
@@ -513,36 +613,129 @@ func evalScenario(sc Scenario, evs []Ev) OracleOut {
 				st.MaxSentinelQ = q
 			}
 		}
+		// (a) ReadValue blocks for at most one polling interval
+		type agg struct {
+			total, exceed, maxQ int
+			rawExceed           int
+			worst               *read
+			det                 string
+		}
+		classes := map[string]*agg{"initialised": {}, "uninitialised": {}}
 		for _, d := range detOrder {
-			reported := false
+			ps := polls[d]
 			for _, r := range reads[d] {
 				q := count(r.call, r.ret)
 				st.BlockEvaluated++
 				if q > st.MaxQ {
 					st.MaxQ = q
 				}
-				if q >= 8 && q > st.MaxSentinelQ+2 && !reported {
-					reported = true
-					class := "initialised"
-					init := false
-					for _, p := range polls[d] {
-						if p.end != 0 && p.end < r.call {
-							init = true
+				class := "uninitialised"
+				for _, p := range ps {
+					if p.end != 0 && p.end < r.call {
+						class = "initialised"
+						break
+					}
+				}
+				a := classes[class]
+				a.total++
+				if raw(r.call, r.ret) >= 8 {
+					a.rawExceed++
+				}
+				if q >= 8 && q > st.MaxSentinelQ+2 {
+					a.exceed++
+					if q > a.maxQ {
+						a.maxQ, a.worst, a.det = q, r, d
+					}
+				}
+			}
+		}
+		for class, a := range classes {
+			// a single long read is what a descheduled goroutine looks like; a defect shows up systematically
+			if a.exceed >= 3 || (class == "uninitialised" && a.exceed >= 1 && 2*a.exceed >= a.total) {
+				addViol(Viol{Kind: "read-blocks",
+					Key:  "C19:read-blocks-more-than-one-interval:" + class,
+					Desc: fmt.Sprintf("%d of %d ReadValue calls in the %s state spanned >= 8 quarter-interval ticks (two full polling intervals), the longest %d, while concurrent sentinel sleeps of exactly one interval spanned at most %d", a.exceed, a.total, class, a.maxQ, st.MaxSentinelQ),
+					Detail: map[string]any{"detector": a.det, "read_call": a.worst.call, "read_ret": a.worst.ret, "result": a.worst.res, "quarter_ticks": a.maxQ,
+						"exceeding": a.exceed, "total_in_class": a.total, "max_sentinel_quarter_ticks": st.MaxSentinelQ, "events_around": excerpt(a.det, a.worst.call-5, a.worst.ret+2)}})
+			} else if a.rawExceed >= 3 || (class == "uninitialised" && a.rawExceed >= 1 && 2*a.rawExceed >= a.total) {
+				out.TimedUndecided = append(out.TimedUndecided, "C19:read-blocks-more-than-one-interval:"+class)
+			}
+		}
+		// (a') a poll ends within its timeout: it must not span timeout + pollGapIntervals intervals
+		var clockEnd int64
+		if len(qticks) > 0 {
+			clockEnd = qticks[len(qticks)-1]
+		}
+		limitQ := 4 * ((sc.TimeoutMs+sc.PullMs-1)/sc.PullMs + pollGapIntervals)
+		for _, d := range detOrder {
+			for i, p := range polls[d] {
+				to := p.end
+				if to == 0 {
+					to = clockEnd
+				}
+				if to <= p.start {
+					continue
+				}
+				if q := count(p.start, to); q < limitQ {
+					if raw(p.start, to) >= limitQ {
+						out.TimedUndecided = append(out.TimedUndecided, "C19:completeness:poll-outlives-its-timeout")
+					}
+				} else {
+					addViol(Viol{Kind: "poll-hangs",
+						Key:    "C19:completeness:poll-outlives-its-timeout",
+						Desc:   fmt.Sprintf("a poll of detector %s (timeout %d ms, interval %d ms) spanned %d quarter-interval ticks, more than timeout + %d intervals (%d)", d, sc.TimeoutMs, sc.PullMs, q, pollGapIntervals, limitQ),
+						Detail: map[string]any{"detector": d, "poll_start": p.start, "poll_end": p.end, "quarter_ticks": q, "limit": limitQ, "poll_index": i, "events_around": excerpt(d, p.start-20, p.start+20)}})
+					break
+				}
+			}
+		}
+		// (b) the detector keeps polling: no gap of pollGapIntervals intervals between the end of one poll and the start of the next
+		var teardown int64
+		for _, e := range evs {
+			if e.K == "teardown" {
+				teardown = e.Seq
+			}
+		}
+		for _, d := range detOrder {
+			ps := polls[d]
+			from := created[d]
+			for i := 0; i <= len(ps); i++ {
+				to := teardown
+				if i < len(ps) {
+					to = ps[i].start
+				}
+				if from > 0 && to > from {
+					q := count(from, to)
+					st.GapsEvaluated++
+					if q > st.MaxGapQ {
+						st.MaxGapQ = q
+					}
+					if q < 4*pollGapIntervals {
+						if raw(from, to) >= 4*pollGapIntervals {
+							out.TimedUndecided = append(out.TimedUndecided, "C19:settle:detector-stops-polling")
 						}
+					} else {
+						addViol(Viol{Kind: "poll-gap",
+							Key:    "C19:settle:detector-stops-polling",
+							Desc:   fmt.Sprintf("detector %s started no poll during %d quarter-interval ticks (%d polling intervals) although it was neither inside a poll nor closed", d, q, q/4),
+							Detail: map[string]any{"detector": d, "gap_from": from, "gap_to": to, "quarter_ticks": q, "polls_before": i, "events_around": excerpt(d, from-10, from+30)}})
+						break
 					}
-					if !init {
-						class = "uninitialised"
+				}
+				if i < len(ps) {
+					from = ps[i].end
+					if from == 0 {
+						break
 					}
-					addViol(Viol{Kind: "read-blocks",
-						Key:  "C19:read-blocks-more-than-one-interval:" + class,
-						Desc: fmt.Sprintf("a ReadValue call spanned %d quarter-interval ticks (two full polling intervals = 8) while concurrent sentinel sleeps of exactly one interval spanned at most %d", q, st.MaxSentinelQ),
-						Detail: map[string]any{"detector": d, "read_call": r.call, "read_ret": r.ret, "result": r.res, "quarter_ticks": q,
-							"max_sentinel_quarter_ticks": st.MaxSentinelQ, "events_around": excerpt(d, r.call-5, r.ret+2)}})
 				}
 			}
 		}
 	}
 
+	if listenFailed != "" {
+		// harness-level problem (port collision with another process): nothing in this scenario is trustworthy
+		return OracleOut{Stats: newStats(), Inconclusive: []string{fmt.Sprintf("scenario %d: monitor/proxy could not listen on its reserved port (%s); scenario discarded", sc.ID, listenFailed)}}
+	}
 	if timeoutInGenerous {
 		out.Inconclusive = append(out.Inconclusive, fmt.Sprintf("scenario %d: a poll timed out under the generous (%d ms) timeout with archetype alive and monitor reachable — loaded machine, accuracy not decided", sc.ID, sc.TimeoutMs))
 	}
